@@ -35,6 +35,15 @@ func BoundSites(fn *ssa.Function) []BoundSite {
 			if _, isC := ConstInt(x.Len); !isC {
 				out = append(out, BoundSite{fn, in, "make"})
 			}
+		case *ssa.BinOp:
+			// integer division by a non-constant: panics when the divisor is zero
+			if x.Op == token.QUO || x.Op == token.REM {
+				if bt, ok := x.Type().Underlying().(*types.Basic); ok && bt.Info()&types.IsInteger != 0 {
+					if _, isC := ConstInt(x.Y); !isC {
+						out = append(out, BoundSite{fn, in, "div"})
+					}
+				}
+			}
 		}
 	})
 	return out
@@ -128,6 +137,15 @@ func lenFacts(b *ssa.BasicBlock, s ssa.Value) (minLen int64, geq []ssa.Value) {
 		switch op {
 		case ">=", "==":
 			geq = append(geq, r)
+			// len(s) == c*v or >= c*v with c >= 1 and v >= 0 implies len(s) >= v
+			if bo, ok := stripAll(r).(*ssa.BinOp); ok && bo.Op == token.MUL {
+				if k, isK := ConstInt(bo.X); isK && k >= 1 && nonNegative(bo.Y) {
+					geq = append(geq, bo.Y)
+				}
+				if k, isK := ConstInt(bo.Y); isK && k >= 1 && nonNegative(bo.X) {
+					geq = append(geq, bo.X)
+				}
+			}
 		case ">":
 			geq = append(geq, r)
 		}
@@ -144,6 +162,15 @@ func lenFacts(b *ssa.BasicBlock, s ssa.Value) (minLen int64, geq []ssa.Value) {
 			}
 			if k, ok := ConstInt(bo.Y); ok && nonNegative(bo.X) && k > minLen {
 				minLen = k
+			}
+		}
+	case *ssa.Call:
+		// append(x, y...) has at least len(x)+len(y) elements
+		if bi, ok := x.Call.Value.(*ssa.Builtin); ok && bi.Name() == "append" && len(x.Call.Args) == 2 {
+			m0, _ := lenFacts(b, x.Call.Args[0])
+			m1, _ := lenFacts(b, x.Call.Args[1])
+			if m0+m1 > minLen {
+				minLen = m0 + m1
 			}
 		}
 	case *ssa.Extract:
@@ -253,7 +280,7 @@ func nonNegative(v ssa.Value) bool { return nonNeg(v, map[ssa.Value]bool{}) }
 func NonNegative(v ssa.Value) bool { return nonNegative(v) }
 
 func nonNeg(v ssa.Value, seen map[ssa.Value]bool) bool {
-	v = stripAll(v)
+	v = StripConv(v) // widening conversions keep the value
 	if seen[v] {
 		return true // coinductive: a cycle through sign-preserving operations
 	}
@@ -268,6 +295,27 @@ func nonNeg(v ssa.Value, seen map[ssa.Value]bool) bool {
 	case *ssa.Call:
 		if b, ok := x.Call.Value.(*ssa.Builtin); ok && (b.Name() == "len" || b.Name() == "cap" || b.Name() == "copy") {
 			return true
+		}
+		// a call all of whose possible module callees return non-negative values on every path
+		if CalleesOfSite != nil && x.Type() != nil {
+			if bt, ok := x.Type().Underlying().(*types.Basic); ok && bt.Info()&types.IsInteger != 0 {
+				cs := CalleesOfSite(x)
+				okAll := len(cs) > 0
+				for _, f := range cs {
+					if !InModule(f) || f.Blocks == nil {
+						okAll = false
+						break
+					}
+					for _, r := range Returns(f) {
+						if len(r.Results) != 1 || !nonNeg(r.Results[0], seen) {
+							okAll = false
+						}
+					}
+				}
+				if okAll {
+					return true
+				}
+			}
 		}
 	case *ssa.BinOp:
 		switch x.Op {
@@ -294,16 +342,73 @@ func nonNeg(v ssa.Value, seen map[ssa.Value]bool) bool {
 		}
 		return ok
 	case *ssa.Convert:
-		return nonNeg(x.X, seen)
+		// a non-widening conversion: to unsigned is caught above; unsigned -> signed of the same or a smaller size keeps
+		// the value only when it fits, i.e. when a bound below the sign bit is known
+		fb, ok1 := x.X.Type().Underlying().(*types.Basic)
+		tb, ok2 := x.Type().Underlying().(*types.Basic)
+		if ok1 && ok2 && fb.Info()&types.IsInteger != 0 && tb.Info()&types.IsInteger != 0 {
+			if ub, ok := upperBoundVal(x.Block(), x.X); ok && nonNeg(x.X, seen) && intBits(tb) <= 64 && (intBits(tb) == 64 || ub < int64(1)<<uint(intBits(tb)-1)) {
+				return true
+			}
+		}
+		return false
+	case *ssa.Field:
+		return structFieldNonNeg(x.X.Type(), x.Field, seen)
+	case *ssa.Parameter:
+		return paramNonNeg(x, seen)
 	case *ssa.UnOp:
 		// load of an unexported struct field every store to which is non-negative (configuration such as tag sizes)
 		if fa, ok := x.X.(*ssa.FieldAddr); ok && x.Op == token.MUL {
 			return fieldNonNeg(fa, seen)
 		}
-	case *ssa.Field:
-		return false
 	}
 	return false
+}
+
+// CalleesOfSite is installed by Load: the possible callees (VTA) of a call site.
+var CalleesOfSite func(site ssa.CallInstruction) []*ssa.Function
+
+// CallersOf is installed by Load: the call sites (VTA) of a module function.
+var CallersOf func(fn *ssa.Function) []ssa.CallInstruction
+
+// paramNonNeg: an integer parameter of a module function is non-negative when every call site in the module passes a
+// non-negative value (the analysed entry points are the module's own callers).
+func paramNonNeg(p *ssa.Parameter, seen map[ssa.Value]bool) bool {
+	fn := p.Parent()
+	if fn == nil || CallersOf == nil {
+		return false
+	}
+	idx := -1
+	for i, q := range fn.Params {
+		if q == p {
+			idx = i
+		}
+	}
+	sites := CallersOf(fn)
+	if idx < 0 || len(sites) == 0 {
+		return false
+	}
+	for _, site := range sites {
+		c := site.Common()
+		args := c.Args
+		if c.IsInvoke() {
+			// receiver is not in Args for invoke calls; parameter 0 of the method is the receiver
+			if idx == 0 {
+				return false
+			}
+			if idx-1 >= len(args) {
+				return false
+			}
+			if !nonNeg(args[idx-1], seen) {
+				return false
+			}
+			continue
+		}
+		if idx >= len(args) || !nonNeg(args[idx], seen) {
+			return false
+		}
+	}
+	return true
 }
 
 // fieldInvariantFuncs is the set of functions searched for stores to a field (set by Load: all module functions).
@@ -323,8 +428,19 @@ func fieldOf(fa *ssa.FieldAddr) *types.Var {
 
 // fieldNonNeg: the field is unexported, its address never escapes, and every store to it anywhere in the module
 // stores a non-negative value (the zero value of a fresh struct is 0).
+func structFieldNonNeg(t types.Type, idx int, seen map[ssa.Value]bool) bool {
+	st, ok := t.Underlying().(*types.Struct)
+	if !ok || idx >= st.NumFields() {
+		return false
+	}
+	return fieldVarNonNeg(st.Field(idx), seen)
+}
+
 func fieldNonNeg(fa *ssa.FieldAddr, seen map[ssa.Value]bool) bool {
-	f := fieldOf(fa)
+	return fieldVarNonNeg(fieldOf(fa), seen)
+}
+
+func fieldVarNonNeg(f *types.Var, seen map[ssa.Value]bool) bool {
 	if f == nil || f.Exported() || len(fieldInvariantFuncs) == 0 {
 		return false
 	}
@@ -377,9 +493,116 @@ func ProveBound(site BoundSite) string {
 		if k, ok := lowerBoundGuard(b, x.Len); ok && k >= 0 {
 			return fmt.Sprintf("guarded: length >= %d", k)
 		}
+		if k, ok := lowerBoundExpr(b, x.Len, 0); ok && k >= 0 {
+			return fmt.Sprintf("length >= %d by arithmetic on guarded lengths", k)
+		}
 		return ""
 	case *ssa.Slice:
 		return proveSlice(b, x)
+	case *ssa.BinOp:
+		if x.Op == token.QUO || x.Op == token.REM {
+			return provePositive(b, x.Y)
+		}
+	}
+	return ""
+}
+
+// lowerBoundExpr: a constant lower bound of an integer expression over guarded lengths: len(s), x+c, x-c, x*c, x/c.
+func lowerBoundExpr(b *ssa.BasicBlock, v ssa.Value, d int) (int64, bool) {
+	if d > 8 {
+		return 0, false
+	}
+	v = StripConv(v)
+	if k, ok := ConstInt(v); ok {
+		return k, true
+	}
+	best, found := int64(0), false
+	set := func(k int64) {
+		if !found || k > best {
+			best, found = k, true
+		}
+	}
+	if k, ok := lowerBoundGuard(b, v); ok {
+		set(k)
+	}
+	if nonNegative(v) {
+		set(0)
+	}
+	switch x := v.(type) {
+	case *ssa.Call:
+		if bi, ok := x.Call.Value.(*ssa.Builtin); ok && bi.Name() == "len" {
+			m, _ := lenFacts(b, x.Call.Args[0])
+			set(m)
+		}
+	case *ssa.BinOp:
+		lx, okx := lowerBoundExpr(b, x.X, d+1)
+		ky, isK := ConstInt(x.Y)
+		switch x.Op {
+		case token.ADD:
+			if ly, oky := lowerBoundExpr(b, x.Y, d+1); okx && oky {
+				set(lx + ly)
+			}
+		case token.SUB:
+			if okx && isK {
+				set(lx - ky)
+			}
+		case token.MUL:
+			if okx && isK && ky >= 0 && lx >= 0 {
+				set(lx * ky)
+			}
+		case token.QUO:
+			if okx && isK && ky > 0 && lx >= 0 {
+				set(lx / ky)
+			}
+		}
+	}
+	return best, found
+}
+
+// provePositive: the divisor of an integer division is never zero.
+func provePositive(b *ssa.BasicBlock, v ssa.Value) string {
+	if k, ok := lowerBoundExpr(b, v, 0); ok && k >= 1 {
+		return fmt.Sprintf("divisor >= %d", k)
+	}
+	for _, g := range Guards(b) {
+		a, isCmp := AtomOf(g)
+		if isCmp && sameSSA(a.LV, v) {
+			if k, ok := ConstInt(a.RV); ok && ((a.Op == "!=" && k == 0) || (a.Op == ">" && k >= 0)) {
+				return "divisor tested against zero"
+			}
+		}
+	}
+	switch x := StripConv(v).(type) {
+	case *ssa.Call:
+		// crypto/cipher.Block.BlockSize, hash.Hash.Size/BlockSize, cipher.AEAD.NonceSize: positive by their documentation
+		if x.Call.IsInvoke() {
+			switch x.Call.Method.Name() {
+			case "BlockSize", "Size":
+				if pk := x.Call.Method.Pkg(); pk != nil && (pk.Path() == "crypto/cipher" || pk.Path() == "hash") {
+					return "block/digest size of a standard-library cipher or hash (positive)"
+				}
+			}
+		}
+	case *ssa.Parameter:
+		if CallersOf != nil {
+			sites := CallersOf(x.Parent())
+			idx := -1
+			for i, q := range x.Parent().Params {
+				if q == x {
+					idx = i
+				}
+			}
+			ok := len(sites) > 0 && idx >= 0
+			for _, site := range sites {
+				c := site.Common()
+				if c.IsInvoke() || idx >= len(c.Args) || provePositive(site.Block(), c.Args[idx]) == "" {
+					ok = false
+				}
+			}
+			if ok {
+				return "every caller in the module passes a positive value"
+			}
+		}
 	}
 	return ""
 }
@@ -486,6 +709,100 @@ func proveIndex(b *ssa.BasicBlock, s, idx ssa.Value) string {
 	if rangeIndex(idx, s) {
 		return "range loop index"
 	}
+	// a % n into a slice of n elements, a >= 0, n >= 1
+	if bo, ok := stripAll(idx).(*ssa.BinOp); ok && bo.Op == token.REM {
+		lo, okLo := lowerBoundExpr(b, bo.X, 0)
+		if okLo && lo >= 0 && provePositive(b, bo.Y) != "" {
+			if ms, ok := stripAll(s).(*ssa.MakeSlice); ok && sameSSA(ms.Len, bo.Y) {
+				return "index a%n into a slice made with n elements (a >= 0, n >= 1)"
+			}
+			if isLenOf(bo.Y, s) {
+				return "index a%len(s) (a >= 0, len(s) >= 1)"
+			}
+		}
+	}
+	// X.f[i] where i ranges over Y and every store to X.f in this function is make([]T, len(Y)) or an append to itself
+	if why := rangeOverMadeField(b, idx, s); why != "" {
+		return why
+	}
+	return ""
+}
+
+// rangeCollection: idx is the index of a `for i := range Y` loop; returns Y.
+func rangeCollection(idx ssa.Value) ssa.Value {
+	bo, ok := stripAll(idx).(*ssa.BinOp)
+	if !ok || bo.Op != token.ADD {
+		return nil
+	}
+	if _, ok := bo.X.(*ssa.Phi); !ok {
+		return nil
+	}
+	if k, ok := ConstInt(bo.Y); !ok || k != 1 {
+		return nil
+	}
+	for _, r := range *bo.Referrers() {
+		if cmp, ok := r.(*ssa.BinOp); ok && cmp.Op == token.LSS && cmp.X == ssa.Value(bo) {
+			if call, ok := stripAll(cmp.Y).(*ssa.Call); ok {
+				if bi, ok := call.Call.Value.(*ssa.Builtin); ok && bi.Name() == "len" {
+					return call.Call.Args[0]
+				}
+			}
+		}
+	}
+	return nil
+}
+
+func rangeOverMadeField(at *ssa.BasicBlock, idx, s ssa.Value) string {
+	y := rangeCollection(idx)
+	if y == nil {
+		return ""
+	}
+	ld, ok := stripAll(s).(*ssa.UnOp)
+	if !ok || ld.Op != token.MUL {
+		return ""
+	}
+	fa, ok := ld.X.(*ssa.FieldAddr)
+	if !ok {
+		return ""
+	}
+	path := Path(fa)
+	if strings.HasPrefix(path, "%") {
+		return ""
+	}
+	fn := ld.Parent()
+	made := false
+	okAll := true
+	EachInstr(fn, func(in ssa.Instruction) {
+		st, ok := in.(*ssa.Store)
+		if !ok {
+			return
+		}
+		a, isFA := st.Addr.(*ssa.FieldAddr)
+		if !isFA || Path(a) != path {
+			return
+		}
+		if st.Block() != at && !ReachableBlocks(st.Block(), nil)[at] {
+			return // a store on a branch that never reaches the indexed use
+		}
+		switch v := stripAll(st.Val).(type) {
+		case *ssa.MakeSlice:
+			if isLenOf(v.Len, y) {
+				made = true
+				return
+			}
+		case *ssa.Call:
+			if bi, ok := v.Call.Value.(*ssa.Builtin); ok && bi.Name() == "append" {
+				if l0, ok := stripAll(v.Call.Args[0]).(*ssa.UnOp); ok && l0.Op == token.MUL && Path(l0.X) == path {
+					return // grows only
+				}
+			}
+		}
+		okAll = false
+	})
+	// the struct literal form: the field is initialised inside a composite literal of a fresh allocation
+	if made && okAll {
+		return "the field was made with len(Y) elements (and only appended to), the index ranges over Y"
+	}
 	return ""
 }
 
@@ -520,6 +837,20 @@ func proveSlice(b *ssa.BasicBlock, x *ssa.Slice) string {
 	ge := func(v ssa.Value) bool { // len(s) >= v ?
 		if v == nil {
 			return true
+		}
+		// n = copy(dst, src) <= len(dst), len(src)
+		if call, ok := stripAll(v).(*ssa.Call); ok {
+			if bi, ok := call.Call.Value.(*ssa.Builtin); ok && bi.Name() == "copy" {
+				if sameSSA(call.Call.Args[0], x.X) || sameSSA(call.Call.Args[1], x.X) {
+					return true
+				}
+			}
+		}
+		// len(s)/c <= len(s)
+		if bo, ok := stripAll(v).(*ssa.BinOp); ok && bo.Op == token.QUO && isLenOf(bo.X, x.X) {
+			if k, isK := ConstInt(bo.Y); isK && k >= 1 {
+				return true
+			}
 		}
 		if sub, ok := lenMinus(v, x.X); ok && nonNegative(sub) {
 			return true // len(s) - c <= len(s) for c >= 0
@@ -574,7 +905,26 @@ func proveSlice(b *ssa.BasicBlock, x *ssa.Slice) string {
 			}
 		}
 	}
-	// slicing up to capacity of a fresh make / append result is not modelled: only len-based proofs
+	// s[:n] under a dominating guard cap(s) >= n (slicing may extend up to the capacity)
+	if x.Low == nil && x.High != nil && !isArr && nn(x.High) {
+		for _, g := range Guards(b) {
+			a, isCmp := AtomOf(g)
+			if !isCmp {
+				continue
+			}
+			isCap := func(v ssa.Value) bool {
+				call, ok := stripAll(v).(*ssa.Call)
+				if !ok {
+					return false
+				}
+				bi, ok := call.Call.Value.(*ssa.Builtin)
+				return ok && bi.Name() == "cap" && sameSSA(call.Call.Args[0], x.X)
+			}
+			if (isCap(a.LV) && sameSSA(a.RV, x.High) && a.Op == ">=") || (isCap(a.RV) && sameSSA(a.LV, x.High) && a.Op == "<=") {
+				return "slice up to a guarded capacity"
+			}
+		}
+	}
 	if lowOK && highOK && orderOK {
 		return fmt.Sprintf("slice bounds within guarded length >= %d", minLen)
 	}
